@@ -13,6 +13,7 @@
 
 #include <atomic>
 #include <sys/stat.h>
+#include <thread>
 
 using namespace verif;
 using namespace chaiscript;
@@ -261,6 +262,9 @@ namespace {
         }
         ops = front;
       }
+      // the engine may be created (and used a little) by a short-lived thread that has ended before the
+      // actors start: actors may then run on recycled thread ids / thread control blocks
+      p["creator"] = J(int(plan.below(3))); // 0 main, 1 temporary thread, 2 temporary thread that also declares x, y, z
       p["sched"] = gen_sched(sched, T, uint64_t(ops.size()) * 6);
       return p;
     }
@@ -287,7 +291,20 @@ namespace {
       // file calls of use() under this directory become scheduling points (no faults injected here)
       fl_reset();
       fl_track_prefix(dir.c_str());
-      auto chai = make_engine({dir});
+      std::unique_ptr<Engine> chai;
+      const int creator = int(plan.at("creator").num(0));
+      if (creator == 0) {
+        chai = make_engine({dir});
+      } else {
+        std::thread maker([&]() {
+          chai = make_engine({dir});
+          if (creator == 2) {
+            chai->eval("var x = -11; var y = -12; var z = -13;"); // locals of a thread that will be gone
+          }
+        });
+        maker.join();
+        r.counters["probe_engine_created_by_a_thread_that_ended"] += 1;
+      }
       std::atomic<int> bumps{0};
       std::vector<ActorState> st(size_t(T) + 1);
       chai->add(fun([&bumps]() { bumps.fetch_add(1, std::memory_order_relaxed); }), "bump");
